@@ -603,6 +603,9 @@ def check_c19(pid, tier, t0, replay_key):
     M = e1.build_model(E)
     findings, obl, samples, st6 = e6.run(P, M, tables)
     fc, oc, sc = e6.rule_cache(P, tables)
+    fw, ow = e6.rule_fallback_order(P)
+    findings += fw
+    obl += ow
     findings += fc
     obl += oc
     st = base_stats(P)
